@@ -212,10 +212,9 @@ Proof.
     + rewrite R3, R4, R5. lia.
     + rewrite R2, R4. exact Hm.
     + rewrite R2, R5, R6. destruct (maxt s) as [mx|] eqn:Emx; [|exact I]. intros Hpos Hle.
-      unfold max_tasks_hit. fields. rewrite R2, R1. fields.
+      unfold limit_reached. fields. rewrite R2, R4. fields.
       destruct (stop s); [reflexivity|]. cbn [orb]. apply Z.leb_le.
-      match goal with |- context [value (release ?x)] => pose proof (slots_nonneg (loops (release x))); pose proof (len_nonneg (tasks (release x))) end.
-      lia.
+      pose proof (len_nonneg ts). lia.
   - (* stop *)
     inversion H; subst; clear H. constructor; fields; try assumption. destruct (maxt s); [reflexivity | exact I].
   - (* cancel loop *)
@@ -663,4 +662,24 @@ Example suspending_pause_example :
               [EvEnqueue 1 10; EvEnqueue 1 11; EvDeliver 1 10; EvAcquireFast 1; EvSpawn 1; EvDeliver 1 11; EvPauseStart 1;
                EvTaskDone 10; EvAcquireFast 1; EvUnpauseHold 1; EvSpawn 1; EvTaskDone 11] = Some s
             /\ started s = 2 /\ processed s = 2 /\ value s = 1 /\ get_loop 1 (loops s) = Some (mkLoop 1 LIdle false).
+Proof. eexists. split; [vm_compute; reflexivity|]. vm_compute. repeat split. Qed.
+
+(* the stop condition of _task_callback before the fix recorded for C10 (`max_tasks_hit`) counts a slot handed to a loop as an
+   execution under way: after M-1 executions have finished and the loop has been handed the slot for the M-th message it says
+   "stop" - the loop is cancelled with that message in hand (it gives it back): M-1 executions.  Since the fix the stop waits
+   for the M-th START *)
+Theorem old_stop_condition_fires_early :
+  exists es s, run_ev (init 1 (Some 2) [1]) es = Some s /\ started s = 1 /\ processed s = 1 /\
+               get_loop 1 (loops s) = Some (mkLoop 1 (LGranted 2) true) /\ max_tasks_hit s = true /\ stop s = false.
+Proof.
+  exists [EvEnqueue 1 1; EvEnqueue 1 2; EvDeliver 1 1; EvAcquireFast 1; EvSpawn 1; EvDeliver 1 2; EvPause 1; EvTaskDone 1].
+  eexists. split; [vm_compute; reflexivity|]. vm_compute. repeat split.
+Qed.
+
+(* ... and from there the M-th execution is started, after which the stop event is set *)
+Theorem last_allowed_message_is_started :
+  exists s, run_ev (init 1 (Some 2) [1])
+              [EvEnqueue 1 1; EvEnqueue 1 2; EvDeliver 1 1; EvAcquireFast 1; EvSpawn 1; EvDeliver 1 2; EvPause 1; EvTaskDone 1;
+               EvUnpause 1; EvSpawn 1; EvTaskDone 2] = Some s
+            /\ started s = 2 /\ processed s = 2 /\ stop s = true.
 Proof. eexists. split; [vm_compute; reflexivity|]. vm_compute. repeat split. Qed.
